@@ -9,6 +9,7 @@
    subsets additionally evaluates them on every implementation outcome. *)
 From Coq Require Import ZArith QArith List.
 From VL Require Import Prelude.PyDict Model.GetNBest Model.Convert Model.STV Model.Quota Proofs.STV_proofs Proofs.STV_majority_proofs Proofs.STV_psc_proofs Proofs.STV_count_proofs.
+From VL Require Import Model.STVHare Proofs.STVHare_draws_proofs Proofs.STVHare_proofs Proofs.STVHare_count_proofs Proofs.STVHare_psc_proofs.
 Import ListNotations.
 
 Theorem C04_exact_count : forall cf fuel a n total seats caps acc,
@@ -143,6 +144,87 @@ Example C04_psc_example :
   forallb (fun bw => Qle_bool 0 (snd bw)) ex_votes = true /\
   Quota.droop total 3 = 6%Q /\ coalition_weight [1; 2]%positive ex_votes = 13%Q /\
   t_stop t = None /\ length (t_counts t) = 4%nat /\ t_seats t = [(1%positive, 1%Z); (2%positive, 1%Z); (3%positive, 1%Z)].
+Proof. vm_compute. repeat split; try reflexivity. Qed.
+
+(* ---------------------------------------------------------------- the same under the Hare (random whole-ballot) transferer
+   Model/STVHare.v: the random draws of the transferer are the oracle argument [orc] - the theorem holds for EVERY
+   oracle, i.e. whatever individual ballots are drawn away from the elected candidates and however the odd votes of a
+   shared rank fall.  Hypotheses as for C04_psc, with whole non-negative vote counts ([votes_whole]: the domain of the
+   Hare transferer); a count that ends normally (h_stop = None: in particular the oracle was accepted and seats * quota
+   was a whole number) seats min(k, |S|) members of a coalition holding k quotas. *)
+Theorem C04_psc_hare_transferer :
+  forall (quota : Q -> Z -> Q) (mq : bool) (votes : list (ballot * Q)) (n : Z) (caps : list (C * Z)) (S : list C) (k : nat)
+         (orc : oracle),
+    (forall c, In c (all_ranked_candidates votes) -> dget caps c = Some 1%Z) ->
+    NoDup S -> S <> [] ->
+    votes_whole votes ->
+    let total := Qred (fold_left Qplus (map snd votes) 0%Q) in
+    (0 < quota total n)%Q -> (total < inject_Z (n + 1) * quota total n)%Q ->
+    let t := stv_h (Build_cfg (Some quota) true mq (-1)) votes n [] caps orc in
+    h_stop t = None ->
+    (inject_Z (Z.of_nat k) * quota total n <= coalition_weight S votes)%Q ->
+    (Nat.min k (length S) <= length (filter (fun c => cmem c S) (map fst (h_seats t))))%nat.
+Proof.
+  intros quota mq votes n caps S k orc Hcaps Hnd Hne Hw total Hq Hd t Hstop Hk.
+  destruct k as [|k']; [simpl; apply Nat.le_0_l|].
+  exact (proj1 (psc_strong_h (Build_cfg (Some quota) true mq (-1)) quota votes n caps S (Datatypes.S k') orc eq_refl eq_refl eq_refl
+                             Hcaps Hnd Hne Hw Hq Hd Hstop Hk (le_n_S _ _ (Nat.le_0_l k')))).
+Qed.
+
+Theorem C04_psc_hare_transferer_winners :
+  forall (quota : Q -> Z -> Q) (mq : bool) (votes : list (ballot * Q)) (n : Z) (caps : list (C * Z)) (S : list C) (k : nat)
+         (orc : oracle),
+    (forall c, In c (all_ranked_candidates votes) -> dget caps c = Some 1%Z) ->
+    NoDup S -> S <> [] ->
+    votes_whole votes ->
+    let total := Qred (fold_left Qplus (map snd votes) 0%Q) in
+    (0 < quota total n)%Q -> (total < inject_Z (n + 1) * quota total n)%Q ->
+    let t := stv_h (Build_cfg (Some quota) true mq (-1)) votes n [] caps orc in
+    h_stop t = None ->
+    (inject_Z (Z.of_nat k) * quota total n <= coalition_weight S votes)%Q ->
+    exists W : list C, NoDup W /\ incl W S /\ (forall c, In c W -> In (c, 1%Z) (h_seats t)) /\
+                       (Nat.min k (length S) <= length W)%nat.
+Proof.
+  intros quota mq votes n caps S k orc Hcaps Hnd Hne Hw total Hq Hd t Hstop Hk.
+  exact (psc_winners_h (Build_cfg (Some quota) true mq (-1)) quota votes n caps S k orc eq_refl eq_refl eq_refl Hcaps Hnd Hne Hw Hq Hd Hstop Hk).
+Qed.
+
+(* Droop quota (the whole-number quota the Hare transferer is used with): no hypothesis on the quota is left *)
+Theorem C04_psc_hare_transferer_droop :
+  forall (mq : bool) (votes : list (ballot * Q)) (n : Z) (caps : list (C * Z)) (S : list C) (k : nat) (orc : oracle),
+    (forall c, In c (all_ranked_candidates votes) -> dget caps c = Some 1%Z) ->
+    NoDup S -> S <> [] -> (0 <= n)%Z ->
+    votes_whole votes ->
+    let total := Qred (fold_left Qplus (map snd votes) 0%Q) in
+    let t := stv_h (Build_cfg (Some Quota.droop) true mq (-1)) votes n [] caps orc in
+    h_stop t = None ->
+    (inject_Z (Z.of_nat k) * Quota.droop total n <= coalition_weight S votes)%Q ->
+    (Nat.min k (length S) <= length (filter (fun c => cmem c S) (map fst (h_seats t))))%nat.
+Proof.
+  intros mq votes n caps S k orc Hcaps Hnd Hne Hn Hw total t Hstop Hk.
+  assert (Hw0 : forall b w, In (b, w) votes -> (0 <= w)%Q) by (intros b w Hin; apply whole_nonneg_ge0, (Hw b w Hin)).
+  assert (Ht : (0 <= total)%Q).
+  { unfold total. rewrite total_vsum. clear -Hw0. induction votes as [|[b w] vs IH]; simpl; [apply Qle_refl|].
+    apply (Qle_trans _ (0 + 0)); [apply Qle_refl|]. apply Qplus_le_compat; [apply (Hw0 b w); left; reflexivity|].
+    apply IH. intros b0 w0 H. apply (Hw0 b0 w0). right. exact H. }
+  destruct (droop_ok total n Ht Hn) as [Hq Hd].
+  exact (C04_psc_hare_transferer Quota.droop mq votes n caps S k orc Hcaps Hnd Hne Hw Hq Hd Hstop Hk).
+Qed.
+
+(* exact count under the Hare transferer, for every oracle: a count that ends normally has filled exactly n seats *)
+Theorem C04_exact_count_hare_transferer : forall cf votes n prev caps (orc : oracle),
+  h_stop (stv_h cf votes n prev caps orc) = None ->
+  zsum (map snd (h_seats (stv_h cf votes n prev caps orc))) = n.
+Proof. exact stv_h_complete. Qed.
+
+(* non-vacuity: the count of C04_psc_example under the Hare transferer with an oracle that draws six of candidate 1's
+   nine ballots, six of candidate 2's seven, and the six of candidate 3: three counts, the coalition {1,2} is seated *)
+Example C04_psc_hare_transferer_example :
+  let t := stv_h (Build_cfg (Some Quota.droop) true false (-1)) ex_votes 3 [] ex_caps
+                 [[8; 1; 2; 3; 4; 6]; [0; 1; 2; 3; 6; 5]; [0; 1; 2; 3; 4; 5]]%Z in
+  votes_wholeb ex_votes = true /\
+  h_stop t = None /\ h_left t = 0%nat /\ length (h_counts t) = 3%nat /\
+  h_seats t = [(1%positive, 1%Z); (2%positive, 1%Z); (3%positive, 1%Z)].
 Proof. vm_compute. repeat split; try reflexivity. Qed.
 
 (* why the quota hypothesis is there: the clause read for ANY quota function fails for quotas below Droop's, already
@@ -306,3 +388,8 @@ Print Assumptions C04_majority_ballots_first_count.
 Print Assumptions C04_seats_within_caps.
 Print Assumptions C04_exact_count_caps.
 Print Assumptions C04_exact_distinct.
+Print Assumptions C04_psc_hare_transferer.
+Print Assumptions C04_psc_hare_transferer_winners.
+Print Assumptions C04_psc_hare_transferer_droop.
+Print Assumptions C04_exact_count_hare_transferer.
+Print Assumptions C04_psc_hare_transferer_example.
